@@ -343,6 +343,9 @@ def fam_close(rng, n):
         out.append({"name": "close/tcp_client_%s" % mode, "conf": conf(reconnect_ms=100),
                     "endpoints": [{"kind": "tcp_client", "lmode": mode if mode != "stall" else "accept"}],
                     "steps": steps + [{"op": "close", "from": "main"}, {"op": "wait_closed"}]})
+    out.append({"name": "close/udp_broadcast", "conf": conf(), "endpoints": [{"kind": "udp_broadcast"}, {"kind": "custom"}],
+                "steps": [{"op": "wait_open", "ep": 0}, feed(0, "valid", 49801, peer=1), write(1, "MsgAll", 49802, sync=True),
+                          {"op": "sleep", "ms": 5}, {"op": "close", "from": "main"}, {"op": "wait_closed"}]})
     out.append({"name": "close/udp_client", "conf": conf(), "endpoints": [{"kind": "udp_client"}],
                 "steps": [{"op": "wait_open", "ep": 0}, {"op": "close", "from": "main"}, {"op": "wait_closed"}]})
     out.append({"name": "close/serial_backoff", "conf": conf(reconnect_ms=200), "endpoints": [{"kind": "serial", "serial_fails": 50}],
@@ -418,6 +421,34 @@ def fam_stall(rng, positions):
     return out
 
 
+# --------------------------------------------------------------------------- UDP client with a peer / UDP broadcast
+def fam_udp(rng, n):
+    """One UDP client (the fake server learns the node's socket from its first datagram) or UDP broadcast endpoint
+    beside a custom one: datagrams in (valid / wrong checksum / junk), writes of every kind out, then Close."""
+    out = []
+    for i in range(n):
+        t = Tags(95000 + 400 * i)
+        kind = ["udp_broadcast", "udp_client"][i % 2]
+        steps = opens(2) + [write(1, "MsgAll", t.next(), sync=True)]
+        if kind == "udp_client":
+            steps.append({"op": "wait_peer", "ep": 0, "peer": 1})
+        for j in range(rng.randint(4, 14)):
+            r = rng.random()
+            if r < 0.55:
+                steps.append(feed(0, rng.choice(["valid", "valid", "valid", "badck", "junk"]), t.next(), peer=1))
+                steps.append({"op": "sleep", "ms": 2})
+            elif r < 0.7:
+                steps.append(feed(1, rng.choice(["valid", "badck"]), t.next()))
+            else:
+                k = rng.choice(KINDS)
+                ep = rng.randrange(2)
+                steps.append(write(1 + rng.randrange(2), k, t.next(), ep=ep if k.endswith(("To", "Except")) else None, sync=rng.random() < 0.5))
+        steps.append({"op": "quiesce", "ms": 400})
+        out.append({"name": "udp/%s/%d" % (kind, i), "conf": conf(version=rng.choice([1, 2])),
+                    "endpoints": [{"kind": kind}, {"kind": "custom"}], "steps": steps})
+    return out
+
+
 # --------------------------------------------------------------------------- C14
 def fam_faults(rng, thorough=False):
     out = []
@@ -487,6 +518,25 @@ def fam_faults(rng, thorough=False):
                  {"op": "quiesce", "ms": 400}]
         out.append({"name": "faults/serial_fails%d" % fails, "conf": conf(reconnect_ms=100),
                     "endpoints": [{"kind": "serial", "serial_fails": fails}], "steps": steps})
+    # clients: the first connection stays silent and is closed after the idle timeout, the endpoint re-opens after the
+    # reconnect delay, the second connection is fed every idle/3 for 4.5 x idle and must stay open
+    for kind in ["tcp_client", "udp_client"]:
+        t = Tags(75000)
+        idle = 300
+        steps = [{"op": "wait_open", "ep": 0, "n": 1}]
+        if kind == "udp_client":
+            steps += [write(1, "MsgAll", t.next(), sync=True), {"op": "wait_peer", "ep": 0, "peer": 1}]
+        steps += [{"op": "wait_close", "ep": 0, "n": 1}, {"op": "wait_open", "ep": 0, "n": 2}]
+        if kind == "udp_client":
+            steps += [write(1, "MsgAll", t.next(), sync=True), {"op": "wait_peer", "ep": 0, "peer": 2}]
+        else:
+            steps.append({"op": "sleep", "ms": 20})
+        for j in range(14):
+            steps.append(feed(0, "valid", t.next(), peer=2))
+            steps.append({"op": "sleep", "ms": idle // 3})
+        steps.append({"op": "quiesce", "ms": 150})
+        out.append({"name": "faults/idle_%s" % kind, "conf": conf(idle_ms=idle, reconnect_ms=100, idle_silent=[[0, 1]], idle_active=[[0, 2]]),
+                    "endpoints": [{"kind": kind}], "steps": steps})
     # server: every peer its own channel, keeps accepting after faults (see fam_events_server), idle expiry
     for kind in ["tcp_server", "udp_server"]:
         t = Tags(76000)
